@@ -3,6 +3,7 @@
 CONSTANTS
   MaxBody = 1
   QuoteAll = FALSE
+  EmptyParam = FALSE
   AllMethods = TRUE
   KF_TrailingSlash = TRUE
   Source = "all"
